@@ -151,7 +151,11 @@ func gen(r *verifsim.Rng, tier string) (any, hx.Sched) {
 			}
 		case x < 9:
 			op.K = "shared"
-			if r.Intn(3) == 0 {
+			if r.Intn(6) == 0 {
+				// code parsed once by the base parser (a handler closure) declares a class through eval()
+				// while running on this VM
+				op.K = "evaldef"
+			} else if r.Intn(3) == 0 {
 				// resolve a class that exists only as a file on the class path, on demand, through this VM
 				op.K = "autoload"
 				op.Defs = []Def{{"class", verifsim.Pick(r, loadables)}}
@@ -233,6 +237,12 @@ type sys struct {
 	svars  []data.Variable
 	// auto[v][name]: VM v (0 base) has autoloaded name
 	auto map[int]map[string]string
+	// eval'd definitions: class name -> VM that ran the eval (only if the eval succeeded)
+	evalProg  data.GetValue
+	evalVars  []data.Variable
+	evalNames int
+	evalLast  string
+	evalOn    map[string]int
 }
 
 func (s *sys) vm(i int) data.VM {
@@ -493,6 +503,19 @@ func exec(t *testing.T, x any, s hx.Sched) *hx.Outcome {
 			return
 		}
 		sy.shared, sy.svars = prog, p.GetVariables()
+		sy.evalOn = map[string]int{}
+		sy.env.VM.AddFunc(&hx.GoFunc{Name: "__evname", Params: []string{}, Fn: func(ctx data.Context, a []data.Value) (data.GetValue, data.Control) {
+			sy.evalNames++
+			sy.evalLast = fmt.Sprintf("EvDef%d", sy.evalNames)
+			return data.NewStringValue(sy.evalLast), nil
+		}})
+		pe := sy.env.P.Clone()
+		eprog, ectl := pe.ParseString("<?php\n$n = __evname();\neval(\"class \" . $n . \" { public function tag() { return 1; } }\");\n__out(\"done\");\n", "/verif/c12/evalshared.php")
+		if ectl != nil {
+			o.Violate("C12/harness-setup", "eval snippet does not parse: "+hx.CtlStr(ectl))
+			return
+		}
+		sy.evalProg, sy.evalVars = eprog, pe.GetVariables()
 		if _, failed := sy.runOn(0, probeScript(), "/verif/c12/probe.php"); failed != "" {
 			o.Violate("C12/harness-setup", "probe classes cannot be defined on the base VM: "+failed)
 			return
@@ -585,6 +608,21 @@ func step(o *hx.Outcome, w *W, sy *sys, m *model, k int, op Op, log *[]string, o
 				}
 			}
 		}
+	case "evaldef":
+		delete(sy.outs, verifsim.TaskName())
+		sy.evalLast = ""
+		nThrows := len(sy.env.Throws)
+		_, ctl := sy.evalProg.GetValue(sy.vm(op.VM).CreateContext(sy.evalVars))
+		okRun := ctl == nil && sy.outs[verifsim.TaskName()] == "done" && len(sy.env.Throws) == nThrows
+		*log = append(*log, fmt.Sprintf("%d evaldef vm%d %s -> ran=%v", k, op.VM, sy.evalLast, okRun))
+		o.Probe("eval_definitions_through_base_parsed_code", 1)
+		if sy.evalLast != "" {
+			if okRun {
+				sy.evalOn[sy.evalLast] = op.VM
+			} else {
+				sy.evalOn[sy.evalLast] = -1 // eval refused (it is on a temporary VM today): defined nowhere
+			}
+		}
 	case "autoload":
 		name := op.Defs[0].Name
 		var c any
@@ -621,6 +659,11 @@ func step(o *hx.Outcome, w *W, sy *sys, m *model, k int, op Op, log *[]string, o
 		sy.auto[op.VM][name] = entry
 	case "discard":
 		delete(sy.auto, op.VM)
+		for name, on := range sy.evalOn {
+			if on == op.VM {
+				sy.evalOn[name] = -1
+			}
+		}
 		sy.temps[op.VM-1] = runtime.NewTempVM(sy.env.VM).(*runtime.TempVM)
 		if !w.NoPrep {
 			sy.temps[op.VM-1].PrepareParse(sy.env.P)
@@ -730,6 +773,25 @@ func step(o *hx.Outcome, w *W, sy *sys, m *model, k int, op Op, log *[]string, o
 					vmk = "base"
 				}
 				o.Violate("C12/backslash-form/GetOrLoadClass/"+vmk, fmt.Sprintf("after step %d, vm%d resolves %s: %v but \\%s: %v (history: %s)", k, v, d.Name, f1, d.Name, f2, histStr(w, k)))
+			}
+		}
+		// classes declared through eval(): registered exactly on the VM that ran the eval (everywhere if the base VM did)
+		for name, on := range sy.evalOn {
+			c, ok := sy.vm(v).GetClass(name)
+			has := ok && c != nil
+			want := on == 0 || on == v
+			if on > 0 && sy.temps[on-1] == nil {
+				want = false
+			}
+			vmk := "temp"
+			if v == 0 {
+				vmk = "base"
+			}
+			if has && !want {
+				o.Violate("C12/leak/eval/into-"+vmk, fmt.Sprintf("after step %d, vm%d has %s registered, a class that code running on vm%d declared through eval() (history: %s)", k, v, name, on, histStr(w, k)))
+			}
+			if !has && want && on >= 0 {
+				o.Violate("C12/lost/eval/"+vmk, fmt.Sprintf("after step %d, vm%d does not have %s, which it declared through eval() (history: %s)", k, v, name, histStr(w, k)))
 			}
 		}
 		// classes loaded on demand: registered (without loading) exactly where they were loaded
